@@ -207,6 +207,7 @@ type Exec struct {
 	axSeen   map[int]bool
 	epochCtr int
 	vacuityOn bool
+	lemmaMode bool
 	objSeq map[int]int
 	specObj map[int]bool
 	curAssertStatic types.Type
@@ -607,7 +608,7 @@ func (e *Exec) check(st *State, kind string, goal *smt.Term, pos token.Pos, labe
 	if st.Dead() {
 		return
 	}
-	if goal.IsTrue() {
+	if goal.IsTrue() && !(kind == "assert" && e.mute == 0) {
 		return
 	}
 	if e.mute > 0 {
